@@ -599,7 +599,8 @@ func genHttpSites() {
 		Importer: importer.ForCompiler(fset, "source", nil),
 		Error:    func(err error) { terrs = append(terrs, err.Error()) },
 	}
-	conf.Check(httpModPrefix+"http", fset, files, info) // partial information on error: unknown => raw
+	httpPkg, _ := conf.Check(httpModPrefix+"http", fset, files, info) // partial information on error: unknown => raw
+	muxFacts := httpMuxFacts(files, httpPkg, &conf)
 	x := &hx{info: info, files: files, funcs: map[string]*ast.FuncDecl{}, busy: map[string]bool{},
 		pkgASTs: map[string][]*ast.File{}}
 	for _, f := range files {
@@ -709,6 +710,7 @@ func genHttpSites() {
 			})
 		}
 	}
+	b.WriteString(muxFacts)
 	b.WriteString("def httpRoutes : List Route := [")
 	for i, r := range routes {
 		if i > 0 {
@@ -1023,4 +1025,211 @@ func (st *httpCtxState) scan(f string) []string {
 		i = j
 	}
 	return out
+}
+
+// httpMuxFacts: which mux does Serve dispatch through, and who else registers handlers on
+// it.  The server created by Serve has no Handler, i.e. it serves http.DefaultServeMux, a
+// process-global: every package linked into the binary can add routes to it from an init
+// function (net/http/pprof, expvar, golang.org/x/net/trace do), and those routes never call
+// checkLocal.  Facts emitted:
+//
+//	httpImports          the import specs of package http (path, name: "" | "_" | "." | alias)
+//	httpServeMux         "default" when Serve registers with http.HandleFunc and its
+//	                     http.Server literal has no Handler; otherwise what it uses
+//	httpClosureSize      number of packages in the transitive import closure of package http
+//	                     and of the main package (0 = could not be computed: fail-closed)
+//	httpClosureSideEffect  members of the closure known to register on the default mux
+//	httpDefaultMuxUsers  every package of the closure (other than net/http and storrent's
+//	                     http) whose source mentions http.Handle / http.HandleFunc /
+//	                     http.DefaultServeMux — found by scanning the sources, not by name
+func httpMuxFacts(files []*ast.File, pkg *types.Package, conf *types.Config) string {
+	var b strings.Builder
+	// direct imports
+	b.WriteString("def httpImports : List Import := [")
+	first := true
+	for _, f := range files {
+		for _, im := range f.Imports {
+			pth, _ := strconv.Unquote(im.Path.Value)
+			name := ""
+			if im.Name != nil {
+				name = im.Name.Name
+			}
+			if !first {
+				b.WriteString(",")
+			}
+			first = false
+			fmt.Fprintf(&b, "\n  ⟨%s, %s⟩", leanStr(pth), leanStr(name))
+		}
+	}
+	b.WriteString(" ]\n")
+
+	// the mux Serve uses
+	mux := "unknown"
+	for _, f := range files {
+		fd := findFunc(f, "Serve")
+		if fd == nil || fd.Body == nil {
+			continue
+		}
+		mux = "default"
+		ast.Inspect(fd.Body, func(n ast.Node) bool {
+			switch n := n.(type) {
+			case *ast.CompositeLit:
+				if sel, ok := n.Type.(*ast.SelectorExpr); ok && sel.Sel.Name == "Server" {
+					for _, el := range n.Elts {
+						if kv, ok := el.(*ast.KeyValueExpr); ok {
+							if id, ok := kv.Key.(*ast.Ident); ok && id.Name == "Handler" {
+								mux = "handler " + src(kv.Value)
+							}
+						}
+					}
+				}
+			case *ast.CallExpr:
+				if sel, ok := n.Fun.(*ast.SelectorExpr); ok {
+					switch sel.Sel.Name {
+					case "HandleFunc", "Handle":
+						if id, ok := sel.X.(*ast.Ident); !ok || id.Name != "http" {
+							mux = "registers on " + src(sel.X)
+						}
+					case "ListenAndServe", "ListenAndServeTLS", "Serve", "ServeTLS":
+						// http.Serve(l, h) / http.ListenAndServe(addr, h) with a non-nil handler
+						if id, ok := sel.X.(*ast.Ident); ok && id.Name == "http" && len(n.Args) >= 2 {
+							if h, ok := n.Args[len(n.Args)-1].(*ast.Ident); !ok || h.Name != "nil" {
+								mux = "handler " + src(n.Args[len(n.Args)-1])
+							}
+						}
+					}
+				}
+			}
+			return true
+		})
+	}
+	fmt.Fprintf(&b, "def httpServeMux : String := %s\n", leanStr(mux))
+
+	// transitive closure of package http and of the main package
+	closure := map[string]*types.Package{}
+	var walk func(p *types.Package)
+	walk = func(p *types.Package) {
+		if p == nil || closure[p.Path()] != nil {
+			return
+		}
+		closure[p.Path()] = p
+		for _, q := range p.Imports() {
+			walk(q)
+		}
+	}
+	ok := pkg != nil
+	walk(pkg)
+	// the main package links everything that ends up next to the default mux
+	var mainFiles []*ast.File
+	ents, _ := os.ReadDir(*repo)
+	for _, e := range ents {
+		n := e.Name()
+		if e.IsDir() || !strings.HasSuffix(n, ".go") || strings.HasSuffix(n, "_test.go") {
+			continue
+		}
+		if f, err := parser.ParseFile(fset, filepath.Join(*repo, n), nil, 0); err == nil && f.Name.Name == "main" {
+			mainFiles = append(mainFiles, f)
+		}
+	}
+	if len(mainFiles) > 0 {
+		var merrs int
+		c2 := types.Config{Importer: conf.Importer, Error: func(error) { merrs++ }}
+		mp, _ := c2.Check(strings.TrimSuffix(httpModPrefix, "/"), fset, mainFiles, nil)
+		if mp == nil {
+			ok = false
+		}
+		walk(mp)
+	} else {
+		ok = false
+	}
+	known := map[string]bool{"net/http/pprof": true, "expvar": true, "golang.org/x/net/trace": true}
+	var side, users []string
+	for pth, p := range closure {
+		if known[pth] {
+			side = append(side, pth)
+		}
+		if pth == "net/http" || pth == httpModPrefix+"http" || pth == strings.TrimSuffix(httpModPrefix, "/") {
+			continue
+		}
+		// only packages that import net/http can touch its default mux
+		usesHTTP := false
+		for _, q := range p.Imports() {
+			if q.Path() == "net/http" {
+				usesHTTP = true
+			}
+		}
+		if !usesHTTP {
+			continue
+		}
+		// locate the sources through the position of any package-level object
+		dir := ""
+		sc := p.Scope()
+		for _, nm := range sc.Names() {
+			if pos := sc.Lookup(nm).Pos(); pos.IsValid() {
+				dir = filepath.Dir(fset.Position(pos).Filename)
+				break
+			}
+		}
+		if dir == "" {
+			users = append(users, pth+" (sources not found)")
+			continue
+		}
+		des, _ := os.ReadDir(dir)
+		for _, e := range des {
+			n := e.Name()
+			if !strings.HasSuffix(n, ".go") || strings.HasSuffix(n, "_test.go") {
+				continue
+			}
+			f, err := parser.ParseFile(fset, filepath.Join(dir, n), nil, 0)
+			if err != nil {
+				continue
+			}
+			// the local name of net/http in this file
+			local := ""
+			for _, im := range f.Imports {
+				if ip, _ := strconv.Unquote(im.Path.Value); ip == "net/http" {
+					local = "http"
+					if im.Name != nil {
+						local = im.Name.Name
+					}
+				}
+			}
+			if local == "" || local == "_" {
+				continue
+			}
+			hit := ""
+			ast.Inspect(f, func(nd ast.Node) bool {
+				sel, ok := nd.(*ast.SelectorExpr)
+				if !ok || hit != "" {
+					return hit == ""
+				}
+				id, ok := sel.X.(*ast.Ident)
+				if ok && id.Name == local && (sel.Sel.Name == "Handle" || sel.Sel.Name == "HandleFunc" || sel.Sel.Name == "DefaultServeMux") {
+					hit = fmt.Sprintf("%s (%s:%d %s.%s)", pth, n, fset.Position(sel.Pos()).Line, local, sel.Sel.Name)
+				}
+				return true
+			})
+			if hit != "" {
+				users = append(users, hit)
+				break
+			}
+		}
+	}
+	sort.Strings(side)
+	sort.Strings(users)
+	size := len(closure)
+	if !ok {
+		size = 0
+	}
+	fmt.Fprintf(&b, "def httpClosureSize : Nat := %d\n", size)
+	q := func(l []string) string {
+		var w []string
+		for _, s := range l {
+			w = append(w, leanStr(s))
+		}
+		return "[" + strings.Join(w, ", ") + "]"
+	}
+	fmt.Fprintf(&b, "def httpClosureSideEffect : List String := %s\n", q(side))
+	fmt.Fprintf(&b, "def httpDefaultMuxUsers : List String := %s\n", q(users))
+	return b.String()
 }
